@@ -198,9 +198,15 @@ pub fn run(args: &Args) -> i32 {
          leak if it contains a planted value, its marker, or the decoded user/password halves. evaluations = records scanned; \
          distinct_nontrivial = distinct normalised record templates seen.",
     ));
-    rep.assume("records whose target is the client-side TLS/HTTP stack of the harness itself are excluded; a record counts as emitted iff the endpoint's own logger (trusttunnel::log_utils::StdoutLogger::enabled at max level Trace) accepts it");
+    rep.assume("records whose target is the client-side TLS/HTTP stack of the harness itself are excluded; a record counts as emitted iff the endpoint's own logger (trusttunnel::log_utils::StdoutLogger::enabled at max level Trace) accepts it; in addition every record is handed to the real FileLogger and StdoutLogger (Log::log, as the log macros do) and the lines they actually write are scanned");
     rep.assume("scenarios are those of C01/C10/C18/C08, the C05 L2 scenarios (real TLS front end with an SNI credentials label), the error-path sweep and the SOCKS5 upstream path (real Socks5Forwarder against a permissive scripted server)");
     logcap::install(true);
+    // the endpoint's real file and stdout loggers receive every record as well; what they write is scanned too
+    let tee = logcap::install_tee(&env::work_dir(&args.root, "c20logs"));
+    if tee.is_none() { rep.inconclusive("the endpoint's real loggers could not be set up (their output is not scanned)"); }
+    let mut real_offsets = [0usize; 2];
+    let mut real_leaks: BTreeMap<String, (u64, serde_json::Value)> = BTreeMap::new();
+    let mut real_lines = [0u64; 2];
     secrets::set_extra_headers(vec![
         ("authorization".into(), secrets::AUTHZ.as_bytes().to_vec()),
         ("cookie".into(), secrets::COOKIE.as_bytes().to_vec()),
@@ -252,6 +258,26 @@ pub fn run(args: &Args) -> i32 {
             all_needles.sort();
             all_needles.dedup();
             planted = planted.max(all_needles.len());
+            // ---- what the endpoint's real loggers wrote during this set
+            if let Some(t) = tee {
+                logcap::tee_flush();
+                for (k, (which, path)) in [("file logger", &t.file_path), ("stdout logger", &t.stdout_path)].into_iter().enumerate() {
+                    let Ok(bytes) = std::fs::read(path) else { continue };
+                    let fresh = String::from_utf8_lossy(&bytes[real_offsets[k].min(bytes.len())..]).to_string();
+                    real_offsets[k] = bytes.len();
+                    for line in fresh.lines() {
+                        // time [ThreadId(n)] [LEVEL] [target] message
+                        let target = line.splitn(4, "] [").nth(2).map(|x| x.split(']').next().unwrap_or("")).unwrap_or("");
+                        if target.starts_with("rustls::client") || target.starts_with("tt_verif") || target.starts_with("h2::client") { continue; }
+                        real_lines[k] += 1;
+                        if let Some(n) = all_needles.iter().find(|n| line.contains(n.as_str())) {
+                            let e = real_leaks.entry(format!("secret written by the endpoint's {}: target {}", which, target)).or_insert_with(|| (0, json!({"kind":"log-leak","logger":which,"target":target,
+                                "line":line.chars().take(500).collect::<String>(),"matched":if n.len() > 12 { format!("{}...", n.chars().take(12).collect::<String>()) } else { n.clone() }})));
+                            e.0 += 1;
+                        }
+                    }
+                }
+            }
             let records = logcap::drain();
             total_records += records.len();
             for r in &records {
@@ -278,7 +304,12 @@ pub fn run(args: &Args) -> i32 {
     rep.tally("scenario sets driven", scenarios);
     rep.tally("error-path sweep requests", swept);
     secrets::set_extra_headers(vec![]);
+    logcap::tee_off();
     logcap::disable();
+    rep.tally("lines written by the endpoint's real file logger (scanned)", real_lines[0]);
+    rep.tally("lines written by the endpoint's real stdout logger (scanned)", real_lines[1]);
+    if tee.is_some() && (real_lines[0] == 0 || real_lines[1] == 0) { rep.inconclusive("a real logger of the endpoint wrote nothing"); }
+    for (sig, (count, w)) in real_leaks { let mut w = w; w["occurrences"] = json!(count); rep.violation(&sig, w); }
     rep.tally("planted secret values", planted as u64);
     for (k, v) in &by_level { rep.tally(&format!("records at level {}", k), *v); }
     rep.distinct_many(templates.keys().map(|k| common::fnv(k.as_bytes())));
